@@ -68,7 +68,7 @@ func corpusJobs() []job {
 	var js []job
 	add := func(exp expect, src string, mods ...func(*c02Case)) {
 		cs := mkCase("corpus", src, stdInput)
-		cs.TimeoutM = 3000
+		cs.TimeoutM = 10000
 		for _, m := range mods {
 			m(&cs)
 		}
